@@ -76,6 +76,13 @@ type Val struct {
 	Name      string  `json:"name,omitempty"`
 	FamType   uint8   `json:"fam_type,omitempty"`
 	Fams      hexb    `json:"families,omitempty"` // (family, version) pairs
+	Blocks    []Blk   `json:"blocks,omitempty"`   // further description blocks of a DescriptionRes
+}
+
+// Blk is one further description block (type octet + data).
+type Blk struct {
+	Type uint8 `json:"type"`
+	Data hexb  `json:"data"`
 }
 
 // MarshalJSON writes only the members the kind uses (all of them, also when zero).
@@ -136,6 +143,9 @@ func (v Val) MarshalJSON() ([]byte, error) {
 	}
 	if v.hasFamilies() || v.Kind == "ServiceFamily" {
 		m["families"] = v.Fams
+	}
+	if v.Kind == "DescriptionRes" && len(v.Blocks) > 0 {
+		m["blocks"] = v.Blocks
 	}
 	return json.Marshal(m)
 }
@@ -240,6 +250,35 @@ func (v *Val) device() knxnet.DeviceInformationBlock {
 	}
 }
 
+func (v *Val) blocks() []knxnet.UnknownDescriptionBlock {
+	var out []knxnet.UnknownDescriptionBlock
+	for _, b := range v.Blocks {
+		out = append(out, knxnet.UnknownDescriptionBlock{Type: knxnet.DescriptionType(b.Type), Data: append([]byte(nil), b.Data...)})
+	}
+	return out
+}
+
+func (v *Val) blockSegs() []seg {
+	var s []seg
+	off := 0
+	for _, b := range v.Blocks {
+		s = append(s, seg{"UnknownDescriptionBlock.Pack", off, off + 2 + len(b.Data)})
+		off += 2 + len(b.Data)
+	}
+	return s
+}
+
+func (v *Val) goBlocks() string {
+	if len(v.Blocks) == 0 {
+		return ""
+	}
+	var p []string
+	for _, b := range v.Blocks {
+		p = append(p, fmt.Sprintf("{Type: 0x%02x, Data: %s}", b.Type, goBytes(b.Data)))
+	}
+	return ", UnknownBlocks: []knxnet.UnknownDescriptionBlock{" + strings.Join(p, ", ") + "}"
+}
+
 func (v *Val) families() knxnet.SupportedServicesDIB {
 	s := knxnet.SupportedServicesDIB{Type: knxnet.DescriptionType(v.FamType)}
 	for i := 0; i+1 < len(v.Fams); i += 2 {
@@ -258,7 +297,7 @@ func (v *Val) service() knxnet.ServicePackable {
 	case "SearchRes":
 		return &knxnet.SearchRes{Control: host(v.H1), DescriptionB: knxnet.DescriptionBlock{DeviceHardware: v.device(), SupportedServices: v.families()}}
 	case "DescriptionRes":
-		return &knxnet.DescriptionRes{DeviceHardware: v.device(), SupportedServices: v.families()}
+		return &knxnet.DescriptionRes{DeviceHardware: v.device(), SupportedServices: v.families(), UnknownBlocks: v.blocks()}
 	case "ConnReq":
 		return &knxnet.ConnReq{Control: host(v.H1), Tunnel: host(v.H2), Layer: knxnet.TunnelLayer(v.Layer)}
 	case "ConnRes":
@@ -409,6 +448,12 @@ func (v *Val) domainC02() (bool, string) {
 			return false, "name-with-trailing-NUL"
 		}
 	}
+	for _, b := range v.Blocks {
+		// the decoder keeps further blocks of the types 3, 4, 5 and 0xFE that carry data
+		if !(b.Type == 3 || b.Type == 4 || b.Type == 5 || b.Type == 0xFE) || len(b.Data) == 0 || len(b.Data) > 253 {
+			return false, "further-DIB-not-kept-by-the-decoder"
+		}
+	}
 	if v.hasFamilies() {
 		if v.FamType != refenc.DIBFamilies {
 			return false, "families-DIB-type-is-not-its-constant"
@@ -543,6 +588,7 @@ func (v *Val) segs() []seg {
 		body = append([]seg{hostSeg(0), {"DeviceInformationBlock.Pack", 8, 62}}, shift(v.familiesSegs(), 62)...)
 	case "DescriptionRes":
 		body = append([]seg{{"DeviceInformationBlock.Pack", 0, 54}}, shift(v.familiesSegs(), 54)...)
+		body = append(body, shift(v.blockSegs(), endOf(body))...)
 	case "ConnReq":
 		body = []seg{hostSeg(0), hostSeg(8), {own, 16, 20}}
 	case "ConnRes":
@@ -710,7 +756,7 @@ func (v *Val) goExpr() string {
 	case "SearchRes":
 		return fmt.Sprintf("&knxnet.SearchRes{Control: %s, DescriptionB: knxnet.DescriptionBlock{DeviceHardware: %s, SupportedServices: %s}}", goHost(v.H1), v.goDevice(), v.goFamilies())
 	case "DescriptionRes":
-		return fmt.Sprintf("&knxnet.DescriptionRes{DeviceHardware: %s, SupportedServices: %s}", v.goDevice(), v.goFamilies())
+		return fmt.Sprintf("&knxnet.DescriptionRes{DeviceHardware: %s, SupportedServices: %s%s}", v.goDevice(), v.goFamilies(), v.goBlocks())
 	case "ConnReq":
 		return fmt.Sprintf("&knxnet.ConnReq{Control: %s, Tunnel: %s, Layer: 0x%02x}", goHost(v.H1), goHost(v.H2), v.Layer)
 	case "ConnRes", "ConnStateReq":
